@@ -41,7 +41,7 @@ ROOT = os.path.dirname(os.path.dirname(os.path.abspath(__file__)))
 FILES = ["adf/ADF_interface.c", "adf/ADF_internals.c", "cgns_io.c"]
 # the mid-level library: only the call sites of cgio_* are rows (the cg_* / cgi_* call graph above them is not modelled)
 FILES_MLL = ["cgnslib.c", "cgns_internals.c"]
-VERSION = "12"
+VERSION = "13"
 
 STATUS_PARAM_NAMES = {"error_return", "err", "error_return_input", "error_ret", "ierr"}
 # system calls (the primitives).  kind 'neg': < 0 is the error; 'count': -1 or a short count is the error
@@ -339,6 +339,13 @@ class Walker:
             return
         if d[0] == "loc":
             L2 = d[1]
+            if self.loc_err(st, L2) and L2 in st.err:
+                # L receives a value known to be an error: what is pending in L stays reported (L holds an error either way)
+                keep = st.pend.get(L, frozenset())
+                st.pend[L] = frozenset(keep) | st.pend.get(L2, frozenset())
+                st.pend[L2] = frozenset()
+                st.err.add(L)
+                return
             self.lose(st, L, "Overwritten", "`%s` = `%s` at line %d" % (L, L2, line))
             st.pend[L] = st.pend.get(L2, frozenset())
             st.pend[L2] = frozenset()
@@ -477,6 +484,10 @@ class Walker:
         return (U, U)
 
     def kinds_in(self, st, L):
+        if L == self.own and st.pend.get(L):
+            # whatever was moved into the function's own status (`*error_return = FILE_CLOSE_ERROR` after a failed close()) is
+            # read back in the convention of that location
+            return {"adfh" if self.fname.startswith("adfh/") else "adf"}
         return set(self.sites[k]["kind"] for (k, _) in st.pend.get(L, ()))
 
     def apply_pol(self, st, L, pol):
